@@ -1,15 +1,14 @@
-(* C06 — the Birkhoff-von Neumann decomposition reconstructs its input. Statements only. *)
-From Coq Require Import ZArith QArith List Bool Lia.
+(* C06 — the Birkhoff-von Neumann decomposition reconstructs its input. Statements only.
+   Exact-rational model of bistochastic.py:24-66 (BvN2.v) on top of the proved matching model (C09 on C08). *)
+From Coq Require Import Arith ZArith QArith List Bool Lia.
 Import ListNotations.
-From SCK Require Import FlowModel BipModel BvN2 BvN2Proof.
+From SCK Require Import FlowModel BipModel BvN2 BvN2Proof Distortion BvNPerfect BvNFull.
 Local Open Scope Q_scope.
 
-(* Exact-rational model of bistochastic.py:24-66 on top of the proved matching model. For every
-   non-negative square input and every fuel for which the model returns:
-   - X0(i,j) = sum over the returned terms (z, M) of z * [M matches row i with column j]   (contrib)
-   - every coefficient is strictly positive,
-   - every M matches no row and no column twice and only uses positions where X0 is positive. *)
-Theorem C06_reconstructs_partial : forall ffuel X0 res, let n := length X0 in
+(* For every non-negative square input and every fuel for which the model returns:
+   X0(i,j) = sum over the returned terms (z, M) of z * [M matches row i with column j]; every coefficient is
+   strictly positive; every M matches no row and no column twice and only uses positions where X0 is positive. *)
+Theorem C06_reconstructs : forall ffuel X0 res, let n := length X0 in
   (forall i j, (i < n)%nat -> (j < n)%nat -> 0 <= mget X0 i j) ->
   bvn ffuel X0 = Some res ->
   (forall i j, (i < n)%nat -> (j < n)%nat -> mget X0 i j == contrib n res i j) /\
@@ -17,20 +16,32 @@ Theorem C06_reconstructs_partial : forall ffuel X0 res, let n := length X0 in
      0 < fst x /\ NoDup (map fst (snd x)) /\ NoDup (map snd (snd x)) /\
      forall p, In p (snd x) -> exists i j, (i < n)%nat /\ (j < n)%nat /\ p = (Z.of_nat i, Z.of_nat (j + n)) /\ 0 < mget X0 i j).
 Proof. exact C06_bvn_correct. Qed.
-Print Assumptions C06_reconstructs_partial.
+Print Assumptions C06_reconstructs.
 
-(* FULL STATEMENT (what the property asks in addition; decided per explored case by the direct oracle,
-   not yet by a theorem): for a matrix whose rows and columns all have the same sum s > 0 every M has
-   exactly n pairs (a permutation matrix), there are at most n*n terms, and the coefficients add up to s.
-   Missing proof ingredients: Hall's condition for the positivity graph (via the proved max-flow =
-   min-cut), and the counting argument that each round zeroes an entry for good. *)
-Definition C06_full_statement : Prop :=
-  forall ffuel X0 res s, let n := length X0 in
-  (forall i j, (i < n)%nat -> (j < n)%nat -> 0 <= mget X0 i j) -> 0 < s ->
-  (forall i, (i < n)%nat -> fold_right Qplus 0 (map (mget X0 i) (seq 0 n)) == s) ->
-  (forall j, (j < n)%nat -> fold_right Qplus 0 (map (fun i => mget X0 i j) (seq 0 n)) == s) ->
-  bvn ffuel X0 = Some res ->
-  (length res <= n * n)%nat /\ (forall x, In x res -> length (snd x) = n) /\ fold_right Qplus 0 (map fst res) == s.
+(* If moreover X0 is a genuine n x n matrix (n >= 1) whose rows and columns all have the same sum s:
+   at most n*n terms; every M has exactly n pairs — together with the previous theorem (no row, no column twice)
+   each term is a permutation matrix; the coefficients add up to s.  (Uses Hall's condition for the positivity
+   graph, proved from the equal row/column sums, and the max-flow = min-cut theorem of C08.) *)
+Theorem C06_permutations_count_and_coefficient_sum : forall ffuel X0 res s, let n := length X0 in
+  (1 <= n)%nat -> shape n X0 -> Bal n X0 s -> bvn ffuel X0 = Some res ->
+  (length res <= n * n)%nat /\ (forall x, In x res -> length (snd x) = n) /\ sumz res == s.
+Proof. exact C06_bvn_full. Qed.
+Print Assumptions C06_permutations_count_and_coefficient_sum.
+
+(* every maximum matching of the positivity graph of such a matrix is perfect (the lemma behind the previous theorem) *)
+Theorem C06_matchings_are_perfect : forall n X s,
+  (forall i j, (i < n)%nat -> (j < n)%nat -> 0 <= mget X i j) ->
+  (forall i, (i < n)%nat -> sumQ (fun j => mget X i j) (seq 0 n) == s) ->
+  (forall j, (j < n)%nat -> sumQ (fun i => mget X i j) (seq 0 n) == s) -> 0 < s ->
+  forall ffuel M, max_matching ffuel (posgraph X n) (xs n) (ys n) = Some M -> length M = n.
+Proof. exact posgraph_perfect. Qed.
+Print Assumptions C06_matchings_are_perfect.
+
+(* termination: with matching fuel > n the model never runs out of fuel (n*n+2 rounds suffice) *)
+Theorem C06_terminates : forall ffuel X0 s, let n := length X0 in
+  (1 <= n)%nat -> (n < ffuel)%nat -> shape n X0 -> Bal n X0 s -> bvn ffuel X0 <> None.
+Proof. exact C06_bvn_total. Qed.
+Print Assumptions C06_terminates.
 
 Example C06_nonvacuous :
   bvn 6 [[1#2; 1#2]; [1#2; 1#2]] = Some [(1#2, [(0, 3); (1, 2)]%Z); (1#2, [(0, 2); (1, 3)]%Z)].
